@@ -265,7 +265,10 @@ pub struct Package<'a> {
 
 impl Aml for Package<'_> {
     fn to_aml_bytes(&self, sink: &mut dyn AmlSink) {
-        assert!(self.children.len() <= 255, "Package cannot have more than 255 elements");
+        assert!(
+            self.children.len() <= 255,
+            "Package cannot have more than 255 elements"
+        );
         let mut bytes = vec![self.children.len() as u8];
         for child in &self.children {
             child.to_aml_bytes(&mut bytes);
@@ -294,7 +297,10 @@ pub struct PackageBuilder {
 
 impl Aml for PackageBuilder {
     fn to_aml_bytes(&self, sink: &mut dyn AmlSink) {
-        assert!(self.elements <= 255, "Package cannot have more than 255 elements");
+        assert!(
+            self.elements <= 255,
+            "Package cannot have more than 255 elements"
+        );
         let pkg_length = create_pkg_length(self.data.len() + 1, true);
 
         sink.byte(PACKAGEOP);
@@ -391,7 +397,10 @@ fn create_pkg_length(len: usize, include_self: bool) -> Vec<u8> {
     };
 
     let length = len + if include_self { length_length } else { 0 };
-    assert!(length as u64 <= 0x0fff_ffff, "PkgLength cannot encode 2^28 or more");
+    assert!(
+        length as u64 <= 0x0fff_ffff,
+        "PkgLength cannot encode 2^28 or more"
+    );
 
     match length_length {
         1 => result.push(length as u8),
@@ -651,8 +660,14 @@ impl Aml for AddressSpace<u16> {
         sink.word(self.min); /* Min */
         sink.word(self.max); /* Max */
         sink.word(self.translation.unwrap_or(0));
-        assert!(self.min <= self.max, "address range minimum exceeds maximum");
-        assert!(self.max - self.min < u16::MAX, "address range size is not representable");
+        assert!(
+            self.min <= self.max,
+            "address range minimum exceeds maximum"
+        );
+        assert!(
+            self.max - self.min < u16::MAX,
+            "address range size is not representable"
+        );
         let len = self.max - self.min + 1;
         sink.word(len); /* Length */
     }
@@ -670,8 +685,14 @@ impl Aml for AddressSpace<u32> {
         sink.dword(self.min); /* Min */
         sink.dword(self.max); /* Max */
         sink.dword(self.translation.unwrap_or(0)); /* Translation */
-        assert!(self.min <= self.max, "address range minimum exceeds maximum");
-        assert!(self.max - self.min < u32::MAX, "address range size is not representable");
+        assert!(
+            self.min <= self.max,
+            "address range minimum exceeds maximum"
+        );
+        assert!(
+            self.max - self.min < u32::MAX,
+            "address range size is not representable"
+        );
         let len = self.max - self.min + 1;
         sink.dword(len); /* Length */
     }
@@ -689,8 +710,14 @@ impl Aml for AddressSpace<u64> {
         sink.qword(self.min); /* Min */
         sink.qword(self.max); /* Max */
         sink.qword(self.translation.unwrap_or(0)); /* Translation */
-        assert!(self.min <= self.max, "address range minimum exceeds maximum");
-        assert!(self.max - self.min < u64::MAX, "address range size is not representable");
+        assert!(
+            self.min <= self.max,
+            "address range minimum exceeds maximum"
+        );
+        assert!(
+            self.max - self.min < u64::MAX,
+            "address range size is not representable"
+        );
         let len = self.max - self.min + 1;
         sink.qword(len); /* Length */
     }
